@@ -38,8 +38,10 @@ def clean_copy(dst):
 def baseline(copy):
     out = os.path.join(copy, '_bl.xml')
     env = {k: v for k, v in os.environ.items() if k != 'EML_EDA_PLINIO_VERIF'}
+    env.update(PYTHONPATH=copy, OMP_NUM_THREADS=os.environ.get('SEEDTEST_THREADS', '4'),
+               MKL_NUM_THREADS=os.environ.get('SEEDTEST_THREADS', '4'))
     sh(f"/venv/bin/python -m pytest -ra -q -p no:cacheprovider --timeout=900 "
-       f"--continue-on-collection-errors --junitxml={out}", cwd=copy, env=env)
+       f"--continue-on-collection-errors --junitxml={out}", cwd=copy, env=env, timeout=4 * 3600)
     import xml.etree.ElementTree as ET
     b = json.load(open('/root/.vp/BASELINE.json'))
     stable = b['stable_pass']
@@ -81,8 +83,11 @@ def main():
         for c in (A, B):
             os.makedirs(os.path.join(c, '_seed'), exist_ok=True)
             shutil.copy(demo, os.path.join(c, '_seed', 'demo.py'))
-        ra = sh(['/venv/bin/python', '_seed/demo.py'], cwd=A)
-        rb = sh(['/venv/bin/python', '_seed/demo.py'], cwd=B)
+        # PYTHONPATH makes sure the demo imports the copy's plinio even if it does not fix sys.path
+        ea = dict(os.environ, PYTHONPATH=A, OMP_NUM_THREADS='2')
+        eb = dict(os.environ, PYTHONPATH=B, OMP_NUM_THREADS='2')
+        ra = sh(['/venv/bin/python', '_seed/demo.py'], cwd=A, env=ea)
+        rb = sh(['/venv/bin/python', '_seed/demo.py'], cwd=B, env=eb)
         res['demo_on_unchanged_exit'] = ra[0]
         res['demo_on_changed_exit'] = rb[0]
         res['demo_on_changed_tail'] = (rb[1] + rb[2])[-600:]
